@@ -8,7 +8,7 @@ os.makedirs(dst, exist_ok=True)
 shutil.copy(out + "/patch.diff", dst + "/patch.diff")
 for f in os.listdir(out):
     if re.match(r"demo.*\.(c|h|sh|py)$", f) or f == "NOTES.md":
-        s = open(os.path.join(out, f), errors="replace").read().replace("/tmp/wt/%s.out" % wid, ".").replace("/tmp/wt/%s" % wid, "$KSI")
+        s = open(os.path.join(out, f), errors="replace").read().replace("/tmp/wt/%s.out" % wid, ".").replace("/tmp/wt/%s" % wid, "/tmp/ksi-seed")
         open(os.path.join(dst, f), "w").write(s)
 w = open(out + "/demo.with.txt", errors="replace").read().strip().splitlines()
 wo = open(out + "/demo.without.txt", errors="replace").read().strip().splitlines()
@@ -19,7 +19,7 @@ meta = {
     "needs_to_manifest": needs,
     "confirmed": {
         "how": "tools/confirm_seed.sh %s in a scratch worktree of /repo (removed afterwards): git apply patch.diff; make -C src/ksi libksi.la; make include-test; "
-               "demo built against the worktree's libksi and run with and without the change ($KSI in the demo's build line = a libksi tree)" % wid,
+               "demo built against the worktree's libksi and run with and without the change (/tmp/ksi-seed in the demo's build line = a libksi tree)" % wid,
         "builds": True,
         "include_test_with_change": "OK (39 tests)",
         "demo_with_change": {"exit": 1, "last_line": w[-1] if w else ""},
